@@ -28,7 +28,7 @@ RULE = ("a case is a history over 1-2 datasets and a 2-4 id pool: batches whose 
         "F02a/F02b) and legacy duplicates injected with raw key deletes at any position; then one or two compactions with threshold in "
         "{1,2,3,5,default}, optionally killed at the k-th compact.beforeFlush or compact.afterFlush (every flush index incl. the final one; store reopened) or with a writer committing at the k-th flush; every "
         "compaction is bracketed by the same block of reads (full feed, latest-only feed, listing, current and point-in-time lookups, "
-        "outgoing/incoming relations) and a raw key dump (a failing or panicking read is a spec failure); plus targeted cases: k entities "
+        "unscoped merged lookups, outgoing/incoming relations) and a raw key dump (a failing or panicking read is a spec failure); plus targeted cases: k entities "
         "whose last version is a duplicate, threshold 1-2, a writer at the r-th flush writing an entity whose re-point was already "
         "flushed (then re-posting the old content), or a kill at the r-th flush followed by a complete compaction; non-trivial = the compaction removes or should remove at least one version, "
         "or is crashed/raced; distinct = distinct history JSON")
@@ -41,8 +41,9 @@ TRUSTED = [
     "StoreEntities called at that hook (the compactor holds no lock, so this is a legal schedule); true parallel interleavings inside "
     "one badger transaction are not explored",
     "reference-index keys are not modelled: they only count towards the flush threshold (2 keys per target); relationship queries are "
-    "compared before/after on the implementation; the model predicts 'unchanged' unless the comparison base can be stale (F12a), a "
-    "writer raced, or a committed flush deleted reference keys shared with a kept version of the same recorded time (F12c)",
+    "compared before/after on the implementation, as are unscoped merged multi-dataset lookups; the model predicts 'unchanged' unless a "
+    "writer raced, a committed flush (now or earlier in the run) deleted reference keys shared with a kept version of the same recorded "
+    "time (F12c), or the stale comparison base (F12a) makes a difference for some entity of the dataset (both passes are run in lockstep)",
 ]
 ASSUMPTIONS = ["one compaction at a time on a dataset (CompactAsync refuses a second one); the racing writer commits whole batches "
                "between two flushes; no dataset deletion during compaction"]
@@ -72,6 +73,8 @@ def block(ds, pool, tag, ats=()):
         ops.append({"op": "get", "id": i, "datasets": [ds]})
     for (i, a) in ats:
         ops.append({"op": "get", "id": "http://v/" + i, "datasets": [ds], "at": {"after_op": a, "exact": False}})
+    for i in full:                                            # unscoped lookup, partials of all datasets merged (value order matters)
+        ops.append({"op": "get", "id": i, "datasets": [], "merge": True, "mg": True})
     ops.append({"op": "related", "starts": full, "pred": "*", "inverse": False, "datasets": [ds], "limits": [0]})
     ops.append({"op": "related", "starts": full, "pred": "*", "inverse": True, "datasets": [ds], "limits": [0]})
     ops.append({"op": "raw", "ds": ds})
@@ -144,6 +147,16 @@ def witness_cases():
                                 {"op": "dup", "ds": "a", "id": "http://v/e2"}],
                                [{"ds": "a", "threshold": thr, "crash_after": k}, {"ds": "a", "threshold": 1}],
                                later=[[B("a", E("e1", {"p1": "c"}))]]))
+    # two reference predicates, one kept and one changed across batches (no duplicate, nothing stale): outgoing queries (current and
+    # point in time) for the kept predicate must survive the removal of the repeated reference keys
+    cs.append(compact_case(["a"], ["e1", "e2"], [B("a", E("e1", A, {"r1": "e2", "r2": "e3"})), B("a", E("e1", A, {"r1": "e2", "r2": "e4"}))],
+                           [{"ds": "a", "threshold": 0}]))
+    cs.append(compact_case(["a"], ["e1"], [B("a", E("e1", A, {"r1": "e2"})), B("a", E("e1", Bb, {"r1": "e2", "r2": ["e3", "e4"]}))],
+                           [{"ds": "a", "threshold": 1}]))
+    # the same entity in two datasets sharing a property; in the lower-id dataset the latest version is a legacy duplicate recorded
+    # AFTER the other dataset's version: the unscoped merged lookup (value order) must not change
+    cs.append(compact_case(["a", "b"], ["e1"], [B("a", E("e1", A, r)), B("b", E("e1", Bb, {"r1": "e3"})), {"op": "dup", "ds": "a", "id": "http://v/e1"}],
+                           [{"ds": "a", "threshold": 1}]))
     # no duplicates at all, the last two versions keep a reference; a writer commits a newer version before the (only) flush:
     # the compactor must not touch the latest pointer
     cs.append(compact_case(["a"], ["e1", "e2"], [B("a", E("e1", A, r)), B("a", E("e1", Bb, r))],
@@ -278,6 +291,61 @@ def gen_refonly_race(rng):
     return compact_case(["a"], pool, writes, comps, later)
 
 
+def gen_two_preds(rng):
+    """entities with two reference predicates; across batches one is kept and the other changes (or is added/removed), properties
+    sometimes change too; no duplicates, so the comparison base never matters"""
+    k = rng.range(1, 3)
+    pool = sc.IDS[:k]
+    cur = {i: {"r1": rng.choice(sc.IDS[:4]), "r2": rng.choice([rng.choice(sc.IDS[:4]), [rng.choice(sc.IDS[:4]), rng.choice(sc.IDS[:4])]])} for i in pool}
+    p = {i: "a" for i in pool}
+    writes = [B("a", *[E(i, {"p1": p[i]}, dict(cur[i])) for i in pool])]
+    for _ in range(rng.range(1, 3)):
+        ents = []
+        for i in pool:
+            if rng.chance(1, 4):
+                continue
+            ch = rng.choice(["r1", "r2"])
+            kind = rng.below(3)
+            if kind == 0 or ch not in cur[i]:
+                cur[i][ch] = rng.choice(sc.IDS[:5])
+            elif kind == 1 and len(cur[i]) > 1:
+                cur[i].pop(ch)
+            else:
+                cur[i][ch] = [rng.choice(sc.IDS[:5])]
+            if rng.chance(1, 2):
+                p[i] = rng.choice(["a", "b", "bb"])
+            ents.append(E(i, {"p1": p[i]}, dict(cur[i])))
+        if ents:
+            writes.append(B("a", *ents))
+    cp = {"ds": "a", "threshold": rng.choice(THRESHOLDS)}
+    if rng.chance(1, 5):
+        cp[rng.choice(["crash_at", "crash_after"])] = rng.range(1, 2)
+        return compact_case(["a"], pool, writes, [cp, {"ds": "a", "threshold": 0}], [[]])
+    return compact_case(["a"], pool, writes, [cp])
+
+
+def gen_two_ds(rng):
+    """the same entities in datasets a and b with shared keys; legacy duplicates as latest versions, written in an order that
+    interleaves the recorded times of the two datasets; either dataset is compacted"""
+    k = rng.range(1, 2)
+    pool = sc.IDS[:k]
+    writes = []
+    order = ["a", "b"] if rng.chance(1, 2) else ["b", "a"]
+    for d in order:
+        writes.append(B(d, *[E(i, {"p1": rng.choice(["a", "b"]), "p2": d}, {"r1": rng.choice(sc.IDS[:3])}) for i in pool]))
+    for _ in range(rng.range(1, 3)):
+        d = rng.choice(["a", "b"])
+        i = rng.choice(pool)
+        if rng.chance(2, 3):
+            writes.append({"op": "dup", "ds": d, "id": "http://v/" + i})
+        else:
+            writes.append(B(d, E(i, {"p1": rng.choice(["a", "b", "c"]), "p2": d}, {"r1": rng.choice(sc.IDS[:3])})))
+    comps = [{"ds": rng.choice(["a", "b"]), "threshold": rng.choice([1, 2, 0])}]
+    if rng.chance(1, 2):
+        comps.append({"ds": "b" if comps[0]["ds"] == "a" else "a", "threshold": rng.choice([1, 0])})
+    return compact_case(["a", "b"], pool, writes, comps, [[]])
+
+
 def gen_targeted(rng):
     """k entities whose last version is a (legacy or in-batch) duplicate, threshold 1 or 2; either a writer at the r-th flush
     writing entities whose re-point was (or was not yet) flushed, or a kill at the r-th flush followed by a full compaction"""
@@ -309,7 +377,8 @@ def gen(rng, tier):
     n = {"quick": 60, "thorough": 1000, "search": 250}[tier]
     m = {"quick": 20, "thorough": 300, "search": 80}[tier]
     return ([gen_case(rng, tier) for _ in range(n)] + [gen_targeted(rng) for _ in range(m)]
-            + [gen_refonly_race(rng) for _ in range(m // 3)])
+            + [gen_refonly_race(rng) for _ in range(m // 3)] + [gen_two_preds(rng) for _ in range(m // 2)]
+            + [gen_two_ds(rng) for _ in range(m // 2)])
 
 
 def run(binp, cases):
@@ -358,7 +427,7 @@ def get_term(case, op, oo, ns, ticks):
 
 def robs_term(case, obs, tag, ns, ticks):
     full = latest = listing = "[]"
-    gets, rels = [], []
+    gets, rels, merged = [], [], []
     bad = False
     for i, op in enumerate(case["ops"]):
         if op.get("blk") != tag:
@@ -375,6 +444,12 @@ def robs_term(case, obs, tag, ns, ticks):
                 full = t
         elif k == "entities":
             listing = vlib.coq_list([sc.oent_term(CODES, e, ns) for pg in (oo.get("pages") or []) for e in pg])
+        elif k == "get" and op.get("mg"):
+            e = (oo.get("ents") or [None])[0]
+            merged.append(CODES.vcode(["merged", bool(oo.get("found")), None if e is None else
+                                       {"deleted": bool(e.get("deleted")),
+                                        "props": {sc.expand(k2, ns): sc.canon_value(v, ns) for k2, v in (e.get("props") or {}).items()},
+                                        "refs": {sc.expand(k2, ns): sc.canon_ref(v, ns) for k2, v in (e.get("refs") or {}).items()}}]))
         elif k == "get":
             gets.append(get_term(case, op, oo, ns, ticks))
         elif k == "related":
@@ -383,9 +458,9 @@ def robs_term(case, obs, tag, ns, ticks):
                     rels.append((1 if op.get("inverse") else 0, CODES.ucode(sc.expand(r["start"], ns)) * 10000 + CODES.ucode(sc.expand(r["pred"], ns)),
                                  CODES.ucode(sc.expand(r["id"], ns)) if r["id"] else -1))
     rels.sort()
-    return "{| ro_full := %s; ro_latest := %s; ro_listing := %s;\n      ro_gets := %s;\n      ro_rels := %s; ro_bad := %s |}" % (
+    return "{| ro_full := %s; ro_latest := %s; ro_listing := %s;\n      ro_gets := %s;\n      ro_rels := %s; ro_merged := %s; ro_bad := %s |}" % (
         full, latest, listing, vlib.coq_list(gets), vlib.coq_list(["(%s, %s, %s)" % tuple(vlib.zlit(x) for x in r) for r in rels]),
-        vlib.coq_bool(bad))
+        vlib.coq_list([str(x) for x in merged]), vlib.coq_bool(bad))
 
 
 def vkey_term(ns, v, ticks):
